@@ -109,7 +109,6 @@ func runStartup(pl StartupPlan) (res vfx.Result) {
 	return
 }
 
-
 func TestStartupUnderFire(t *testing.T) {
 	vfx.Check(t, genStartupPlan, runStartup)
 }
